@@ -17,6 +17,20 @@ PROPS = {
         "technique": "Lean 4 proof (invariant by induction over operation lists) + source translation + correspondence",
         "assumptions": ["fewer than 2^32 messages per direction (as in the property statement)", "AEAD integrity for identifying IVs by trial decryption"],
     },
+    "C13": {
+        "rule": "every call sequence up to length 3 (quick) / 4 (thorough) over {handle_request(valid | not-CBOR plaintext | non-request plaintext | undecryptable | garbage), "
+                "prepare_response(0,1,2 documents), get_next_signature_payload, submit_next_signature(real | invented bytes), response_ready, retrieve_response} from a fresh established session, "
+                "plus random histories of 4..40 calls mixed with replays, tampering and restores; after every call the return value and the state read from the stringified session are compared with the model, "
+                "and the specification predicates are evaluated on the real observations. Distinct by operation line text",
+        "exhaustive": True,
+        "xlate_items": [],
+        "trusted_base": ["hand-written device state machine IsoMdl/Model/Session.lean, tied by correspondence after every call",
+                         "harness abstraction of the stringified state (document ids, signature ids, status, counters)"],
+        "level_text": "Lean theorems over the device model for arbitrary states and operation lists: payload offered iff unsigned documents remain; submit pairs signature and document; ready iff nothing unsigned after a submit; retrieved exactly once; no-ops are no-ops; malformed plaintext gives status 11/12; every transition is documented. The full 'retrievable without inventing a signature' clause is proved FALSE of the code (witness theorem C13_full_fails) and reported as a known finding; the partial theorem states what holds.",
+        "level_note": "Trusted: Lean kernel; model validated against the real SessionManager after every call of exhaustive short and random long histories; symbolic ciphertexts.",
+        "technique": "Lean 4 proof (case analysis + induction over operation lists) + exhaustive/random correspondence",
+        "assumptions": ["AEAD integrity (symbolic ciphertexts) for which requests decrypt"],
+    },
     "C20": {
         "rule": "requested ages 0..99 x every absent/true/false assignment over a fixed age universe (exhaustive), "
                 "random larger honest/dishonest claim sets, and out-of-domain spellings (+NN, 0NN, non-boolean values, "
